@@ -80,9 +80,10 @@ def ref_framing(cls: List[str], te):
     nonempty = [p for p in stripped if p != ""]
     if not nonempty:
         return ("reject",)
-    vals = set(int(p) for p in nonempty)
-    if len(vals) > 1:
-        return ("reject",)
+    n0 = int(nonempty[0])
+    for p in nonempty:
+        if int(p) != n0:
+            return ("reject",)
     # what remains is numerically consistent; strictly-formed ("n" or "n, n" / "n,n") must be accepted
     strict = all(p == nonempty[0] for p in stripped) and \
         all(pieces[i] == stripped[i] or (i > 0 and pieces[i].lstrip(" \t") == stripped[i])
